@@ -86,7 +86,7 @@ CHECKS_ALL = {
          "Rounding of the two means is not fixed by the statement: anything in [floor, ceil] is accepted.",
          "DESIGN.md §2 C19"),
  "C20": ("build-status monitor over the completely enumerated feature powerset (cargo check exit status per configuration against /repo's working tree) plus a probe binary built and run per named-feature configuration under a panic monitor",
-         "The property's observable is the build, so each configuration is treated as a workload whose first event is 'it compiled' (cargo check --no-default-features --features <set>, `--lib` alone first — the consumer's view, free of the feature unification the examples' dev-dependencies cause — then `--examples`) and, for the named-feature configurations, whose second event is a probe binary exercising the always-present API. quick: model 2^3, decode 2^2, facade 2^3, data named 2^2 + every optional dependency alone / every pair / all-but-one / all / a seeded greedy covering selection that stops when every 6-way on/off interaction of the ten data features occurs in a checked configuration (about 210 cells, 25 probe runs; measured 5/6/7-way coverage in the evidence: 100 % / 100 % / ~90 %). thorough: all 1,024 data combinations. The space is finite and thorough enumerates it completely.",
+         "The property's observable is the build, so each configuration is treated as a workload whose first event is 'it compiled' (cargo check --no-default-features --features <set>, `--lib` alone first — the consumer's view, free of the feature unification the examples' dev-dependencies cause — then `--examples`) and, for the named-feature configurations, whose second event is a probe binary exercising the always-present API. Also 24 configurations in the release profile (cargo check --release --lib). quick: model 2^3, decode 2^2, facade 2^3, data named 2^2 + every optional dependency alone / every pair / all-but-one / all / a seeded greedy covering selection that stops when every 6-way on/off interaction of the ten data features occurs in a checked configuration (about 210 cells, 25 probe runs; measured 5/6/7-way coverage in the evidence: 100 % / 100 % / ~90 %). thorough: all 1,024 data combinations. The space is finite and thorough enumerates it completely.",
          "cargo check type-checks but does not link (the probe runs do); examples' dev-dependencies use workspace defaults; this check sits at the edge of the runtime-monitoring family (DESIGN.md §2 C20).",
          "DESIGN.md §2 C20"),
 }
@@ -110,13 +110,13 @@ def main():
                 "engine": "featmatrix" if pid == "C20" else "nxverif",
                 "level_claimed": {"category": "exploration", "text": text, "design_ref": ref},
                 "level_note": note,
-                "technique": tech,
+                "technique": tech + ("" if pid == "C20" else "; the same workload re-run (reduced) on the harness built in the release profile, with every optional model feature on" + (", and with nexrad-decode's default features off" if pid in ("C02","C03","C04","C07","C08","C09","C10","C11","C12","C13","C14") else "") + "; second runs of cases after other cases on the same thread, failing calls ahead of cases, seed-dependent TZ / logger / environment variables"),
             })
         else:
             na.append({"property_id": pid, "reason": BUILDING})
     manifest = {
         "version": 1,
-        "setup_cmd": "cd /verif/harness && CARGO_NET_OFFLINE=true cargo build --release --offline && CARGO_NET_OFFLINE=true cargo build --profile relwrap --offline",
+        "setup_cmd": "cd /verif/harness && CARGO_NET_OFFLINE=true cargo build --release --offline && CARGO_NET_OFFLINE=true cargo build --profile relwrap --offline && CARGO_NET_OFFLINE=true cargo build --release --offline --features allfeat --target-dir target-allfeat && CARGO_NET_OFFLINE=true cargo build --release --offline --no-default-features --features bz --target-dir target-minfeat",
         "hooks": {
             "guard": "cargo feature verif-hooks on nexrad-data (off by default)",
             "enable": "the harness crate depends on nexrad-data with features=[\"verif-hooks\"]; S3 requests go to $NEXRAD_VERIF_S3_ENDPOINT when set; aws::realtime::verif_hooks::search forwards to the private rotated search",
